@@ -7,9 +7,14 @@
 //   <source> : D rows cols sym
 //            | C<w> rows cols sym order n_outer outer… n_inner inner…
 //            | O<w> rows cols sym order first_index n_row row… n_col col…
+//   sv|sw = the same with THREE convert_values calls on the one converter object (different value arrays)
 // output:    E1 <exc>                                  (constructor threw)
-//          | ok <pattern> E2 <exc>                     (convert_values threw)
-//          | ok <pattern> vals <n_src> <n> v1 … vn     (value i of the source = i+1; 0 = untouched)
+//          | ok <pattern> <block> [| <block> | <block>]
+//   <block> : E2 <exc>                                 (convert_values threw)
+//           | vals <n_src> <n> v1 … vn                 (value i of the source in call k = base_k + i+1,
+//                                                       base = 0, 100, 50; the output buffer is pre-filled
+//                                                       with the sentinel −9, −10, −11: 0 = zeroed by the
+//                                                       converter, sentinel = left untouched)
 //   <pattern> in the same syntax as <source>.
 // The generator only produces memory-safe inputs (indices in range for conversions to dense,
 // well-formed outer pointers, equal index-vector lengths); everything else is allowed.
@@ -120,43 +125,53 @@ const char *exc_name(const std::exception &e) {
     return "other";
 }
 
+// value of source slot i in call k of a sequence, and what the output buffer holds before the call
+static const long long kBase[3]     = {0, 100, 50};
+static const long long kSentinel[3] = {-9, -10, -11};
+
 template <class Conv, class To>
-void emit(std::ostream &os, const Conv &conv) {
+void emit(std::ostream &os, const Conv &conv, int ncalls) {
     const To &res = conv.get_sparsity();
     os << "ok ";
     print_pattern(os, res);
     length_t n = value_count(res);
-    vec vals   = vec::Zero(n);
-    long n_src = -1;
-    auto src   = [&](rvec w) {
-        n_src = static_cast<long>(w.size());
-        for (index_t i = 0; i < w.size(); ++i)
-            w(i) = static_cast<real_t>(i + 1);
-    };
-    try {
-        conv.convert_values(src, vals);
-    } catch (const std::exception &e) {
-        os << " E2 " << exc_name(e) << '\n';
-        return;
+    // ONE converter object (its `work` vector and permutation are reused), ncalls value conversions with
+    // different value arrays.  The output buffer is pre-filled with a sentinel that is neither zero nor a
+    // source value: a cell the converter leaves untouched prints as the sentinel, a cell it zeroes as 0.
+    for (int k = 0; k < ncalls; ++k) {
+        vec vals   = vec::Constant(n, static_cast<real_t>(kSentinel[k]));
+        long n_src = -1;
+        auto src   = [&](rvec w) {
+            n_src = static_cast<long>(w.size());
+            for (index_t i = 0; i < w.size(); ++i)
+                w(i) = static_cast<real_t>(kBase[k] + i + 1);
+        };
+        os << (k ? " |" : "");
+        try {
+            conv.convert_values(src, vals);
+        } catch (const std::exception &e) {
+            os << " E2 " << exc_name(e);
+            continue;
+        }
+        os << " vals " << n_src << ' ' << n;
+        for (index_t i = 0; i < n; ++i)
+            os << ' ' << static_cast<long long>(vals(i));
     }
-    os << " vals " << n_src << ' ' << n;
-    for (index_t i = 0; i < n; ++i)
-        os << ' ' << static_cast<long long>(vals(i));
     os << '\n';
 }
 
 template <class From, class To>
 void run(std::ostream &os, const From &from, const sp::SparsityConversionRequest<To> &req,
-         bool wrap) {
+         bool wrap, int ncalls) {
     try {
         if (wrap) {
             using Conv = sp::SparsityConverter<sp::Sparsity<config_t>, To>;
             Conv conv{sp::Sparsity<config_t>{from}, req};
-            emit<Conv, To>(os, conv);
+            emit<Conv, To>(os, conv, ncalls);
         } else {
             using Conv = sp::SparsityConverter<From, To>;
             Conv conv{from, req};
-            emit<Conv, To>(os, conv);
+            emit<Conv, To>(os, conv, ncalls);
         }
     } catch (const std::exception &e) {
         os << "E1 " << exc_name(e) << '\n';
@@ -192,9 +207,9 @@ struct MakeReq<sp::SparseCSC<config_t, I>> {
 
 template <class From>
 void dispatch_to(std::ostream &os, const From &from, const std::string &to, const std::string &req,
-                 bool wrap) {
+                 bool wrap, int ncalls) {
     auto go = [&]<class To>(std::type_identity<To>) {
-        run<From, To>(os, from, MakeReq<To>::make(req), wrap);
+        run<From, To>(os, from, MakeReq<To>::make(req), wrap, ncalls);
     };
     if (to == "D")
         go(std::type_identity<sp::Dense<config_t>>{});
@@ -216,7 +231,7 @@ void dispatch_to(std::ostream &os, const From &from, const std::string &to, cons
 
 template <class I>
 void from_csc(std::ostream &os, vp::Toks &t, const std::string &to, const std::string &req,
-              bool wrap) {
+              bool wrap, int ncalls) {
     CscSrc<I> src;
     src.rows  = t.nat();
     src.cols  = t.nat();
@@ -224,11 +239,11 @@ void from_csc(std::ostream &os, vp::Toks &t, const std::string &to, const std::s
     src.order = static_cast<int>(t.nat());
     src.outer = read_ivec<I>(t);
     src.inner = read_ivec<I>(t);
-    dispatch_to(os, src.get(), to, req, wrap);
+    dispatch_to(os, src.get(), to, req, wrap, ncalls);
 }
 template <class I>
 void from_coo(std::ostream &os, vp::Toks &t, const std::string &to, const std::string &req,
-              bool wrap) {
+              bool wrap, int ncalls) {
     CooSrc<I> src;
     src.rows        = t.nat();
     src.cols        = t.nat();
@@ -237,7 +252,7 @@ void from_coo(std::ostream &os, vp::Toks &t, const std::string &to, const std::s
     src.first_index = std::stoll(t.tok());
     src.row         = read_ivec<I>(t);
     src.col         = read_ivec<I>(t);
-    dispatch_to(os, src.get(), to, req, wrap);
+    dispatch_to(os, src.get(), to, req, wrap, ncalls);
 }
 
 int main() {
@@ -254,8 +269,9 @@ int main() {
 #else
                 os << "have_coo_csc 0\n";
 #endif
-            } else if (op == "cv" || op == "cw") {
-                bool wrap        = op == "cw";
+            } else if (op == "cv" || op == "cw" || op == "sv" || op == "sw") {
+                bool wrap        = op == "cw" || op == "sw";
+                int ncalls       = op[0] == 's' ? 3 : 1; // sv / sw: three conversions on ONE converter
                 std::string to   = t.tok();
                 std::string req  = t.tok();
                 std::string from = t.tok();
@@ -264,19 +280,19 @@ int main() {
                     d.rows     = t.nat();
                     d.cols     = t.nat();
                     d.symmetry = static_cast<sp::Symmetry>(t.nat());
-                    dispatch_to(os, d, to, req, wrap);
+                    dispatch_to(os, d, to, req, wrap, ncalls);
                 } else if (from == "Ci")
-                    from_csc<int>(os, t, to, req, wrap);
+                    from_csc<int>(os, t, to, req, wrap, ncalls);
                 else if (from == "Cl")
-                    from_csc<long>(os, t, to, req, wrap);
+                    from_csc<long>(os, t, to, req, wrap, ncalls);
                 else if (from == "Cq")
-                    from_csc<long long>(os, t, to, req, wrap);
+                    from_csc<long long>(os, t, to, req, wrap, ncalls);
                 else if (from == "Oi")
-                    from_coo<int>(os, t, to, req, wrap);
+                    from_coo<int>(os, t, to, req, wrap, ncalls);
                 else if (from == "Ol")
-                    from_coo<long>(os, t, to, req, wrap);
+                    from_coo<long>(os, t, to, req, wrap, ncalls);
                 else if (from == "Oq")
-                    from_coo<long long>(os, t, to, req, wrap);
+                    from_coo<long long>(os, t, to, req, wrap, ncalls);
                 else
                     os << "bad-op\n";
             } else {
